@@ -7,6 +7,7 @@
 mod drv_bias;
 mod drv_bits;
 mod drv_build;
+mod drv_corpus;
 mod drv_decode;
 mod drv_fields;
 mod msgen;
@@ -54,6 +55,7 @@ fn main() {
         ("record", "lists") => drv_lists::rec_lists(&a, &mut out),
         ("record", "text") => drv_text::rec_text(&a, &mut out),
         ("record", "serde") => drv_serde::rec_serde(&a, &mut out),
+        ("record", "corpus") => drv_corpus::rec_corpus(&a, &mut out),
         ("debug", "extremes") => drv_build::debug_extremes(&a),
         ("replay", "histories") => drv_build::replay_histories(&a, &mut out),
         _ => {
